@@ -175,6 +175,26 @@ def check_gaussians(ck):
                 run.check(ok, 'R-EIN', f'{cname}.log_pdf: squared norm sums over the feature axis only', ss[0].loc, st['sub'],
                           f'{st["sub"]!r} does not reduce exactly the last (feature) axis of the whitened difference', construct=f'R-EIN::{q}::sum-of-squares')
             ws = [s for s in ein.find_sites(A, q) if s.term is strip_views(white)]
+            if (not ws or not ws[0].parsed) and n_prec_letters <= 1:
+                # per-feature / scalar scaling written with broadcasting instead of an einsum: (y - mean) * precision_factor[..., None, :]
+                w0 = strip_views(white)
+                if w0.op in ('binop', 'iop') and w0.args[0] in ('Mult', 'Div'):
+                    a_, b_ = peel(w0.args[1]), peel(w0.args[2])
+                    is_pc = lambda z: any(self_field(x, 'precision_cholesky') for x in walk_terms(z, into_mu=False))
+                    is_df = lambda z: isinstance(z, T) and z.op == 'binop' and z.args[0] in ('Sub', 'Add')
+                    diff = a_ if is_df(a_) else b_ if is_df(b_) else None
+                    fac = b_ if diff is a_ else a_
+                    if diff is not None and is_pc(fac):
+                        ck.resolved += 1
+                        okd = diff.args[0] == 'Sub' and ein.derives_from_param(diff.args[1], 'y') and any(self_field(x, 'mean') for x in walk_terms(diff.args[2]))
+                        run.check(okd, 'R-EIN', f'{cname}.log_pdf: whitened quantity is y - mean', fn.loc(w0.node), '', 'the whitened operand is not (y - self.mean[..., None, :])',
+                                  construct=f'R-EIN::{q}::difference')
+                        # the stored factor is the PRECISION factor 1 / sigma: whitening multiplies by it
+                        run.check(w0.args[0] == 'Mult', 'R-EIN', f'{cname}.log_pdf: whitening multiplies the difference by the stored precision factor', fn.loc(w0.node), '',
+                                  'the difference is DIVIDED by self.precision_cholesky (= 1 / sigma): the Mahalanobis term is that of the inverse covariance while the '
+                                  'log-determinant term is not - the density is not the named Gaussian and ranks the classes the wrong way round',
+                                  construct=f'R-EIN::{q}::whitening-direction')
+                        continue
             if not ws or not ws[0].parsed:
                 run.unresolved('R-EIN', f'{cname}.log_pdf: whitening contraction', fn.loc(), 'whitening einsum not found')
                 continue
